@@ -6,6 +6,10 @@ From CCT.Gen Require Source.
 Open Scope N_scope.
 
 Definition unit_res (r : res unit) : res pv := x <- r ;; Ok VNone.
+
+(* bodies of entry functions translated on this run, by name (absent when the tree's function is outside the subset) *)
+Definition entry_body (n : string) : option fundef :=
+  option_map snd (find (fun p => String.eqb (fst p) n) Source.entry_bodies).
 Definition bool_res (b : bool) : res pv := Ok (VBool b).
 
 Definition cls_of (v : pv) : option kclass :=
@@ -85,9 +89,10 @@ Section Run.
         if is (U"verify_root") then unit_res (verify_root ed_verify sha a b)
         (* the body of verify_root as translated on this run, interpreted; verify_signable answered by the model *)
         else if is (U"src_verify_root") then
+          match entry_body "verify_root"%string with None => Unmodelled | Some d0 =>
           run_body (fun f args => if String.eqb f "verify_signable"%string
                                   then match args with [s0; k0; t0; g0] => unit_res (verify_signable ed_verify sha s0 k0 t0 g0) | _ => Err TypeError end
-                                  else run_prog Source.program f args) Source.src_verify_root [a; b]
+                                  else run_prog Source.program f args) d0 [a; b] end
         (* the text of common.py as translated on this run (Gen/Source.v), interpreted *)
         else if is (U"src_run") then match a with VStr name => run_prog Source.program (string_of_ustr name) [b] | _ => Unmodelled end
         else if is (U"root_history") then
@@ -259,9 +264,10 @@ Section Run.
         else if is (U"verify_delegation") then unit_res (verify_delegation ed_verify sha a b c d)
         (* the body of verify_delegation as translated on this run, interpreted; its external callee verify_signable answered by the model *)
         else if is (U"src_verify_delegation") then
+          match entry_body "verify_delegation"%string with None => Unmodelled | Some d0 =>
           run_body (fun f args => if String.eqb f "verify_signable"%string
                                   then match args with [s0; k0; t0; g0] => unit_res (verify_signable ed_verify sha s0 k0 t0 g0) | _ => Err TypeError end
-                                  else run_prog Source.program f args) Source.src_verify_delegation [a; b; c; d]
+                                  else run_prog Source.program f args) d0 [a; b; c; d] end
         else Unmodelled
     | [VInt n1; VInt n2; a; b; c; d; e] =>
         if is (U"build_delegating_metadata") then build_delegating_metadata n1 n2 a b c d e
